@@ -258,12 +258,17 @@ def BoolV_(t):
     return BoolV(t)
 
 
-def values_to_pairs_contract():
-    """values_to_pairs()[d][i] == (start + i*(stop-start)/(num_steps-1), values[d][i]) for every depth and node"""
+def values_to_pairs_contract(kind="float"):
+    """values_to_pairs()[d][i] == (start + i*(stop-start)/(num_steps-1), values[d][i]) for every depth and node;
+    kind='int': the landscape holds an integer-typed value array (the grid nodes are reals all the same)"""
     from pyvc.models import AppendList
 
     def make_args(eng):
         o, grid, k, vals = _approx_obj(eng)
+        if kind == "int":
+            from pyvc.arrays import fresh_symbolic
+            vals = fresh_symbolic("values_self_int", (k, grid["num_steps"]), dtype="int", origin="param:self.values", eng=eng)
+            o.fields["values"] = vals
         return {"self": o}, {"o": o, "k": k, "vals": vals, "grid": grid, "old": dict(o.fields)}
 
     def node(g, i):
@@ -301,7 +306,7 @@ def values_to_pairs_contract():
                 ("abscissa_is_the_grid_node", lift(res.get(d, i, 0)) == node(g, i), "P"),
                 ("ordinate_is_the_value", lift(res.get(d, i, 1)) == g["vals"].get(d, i), "P"),
                 ("landscape_untouched", all(g["o"].fields[k] is g["old"][k] for k in g["old"]) and set(g["o"].fields) == set(g["old"]), "P")]
-    return Contract(AMOD, "PersLandscapeApprox.values_to_pairs", make_args, ensures=ensures, definedness="P",
+    return Contract(AMOD, "PersLandscapeApprox.values_to_pairs", make_args, ensures=ensures, definedness="P", variant="values:%s" % kind,
                     loops={0: LoopContract("for vals in self.values", inv, cls="P", havoc={"result": havoc_result})})
 
 
@@ -337,7 +342,7 @@ def approx_contracts(tier):
     """[(contracts, table)]"""
     t = {(MOD, "_p_norm"): Contract(MOD, "_p_norm", None, summary=pnorm_summary),
          (AMOD, "PersLandscapeApprox.values_to_pairs"): Contract(AMOD, "PersLandscapeApprox.values_to_pairs", None, summary=pairs_summary)}
-    return [([approx_sup_norm_contract(), values_to_pairs_contract()], {}), ([approx_p_norm_contract("valid"), approx_p_norm_contract("negative")], t)]
+    return [([approx_sup_norm_contract(), values_to_pairs_contract("float"), values_to_pairs_contract("int")], {}), ([approx_p_norm_contract("valid"), approx_p_norm_contract("negative")], t)]
 
 
 # ----------------------------------------------------------------------------- exact landscapes: sup norm
